@@ -123,6 +123,8 @@ def _ops():
     add("URL()", lambda p: out_url(impl.URL()))
     add("URL(P0) is P0", lambda p: impl.URL(p["P0"]) is p["P0"])
     add("P0.update_query(D)", lambda p: out_url(p["P0"].update_query(p["D"])))
+    add("P0.update_query('q=5&n=1')", lambda p: out_url(p["P0"].update_query("q=5&n=1")))
+    add("P2 % 'k=z'", lambda p: out_url(p["P2"] % "k=z"))
     add("P2.update_query(MD)", lambda p: out_url(p["P2"].update_query(p["MD"])))
     add("P0.with_query(L)", lambda p: out_url(p["P0"].with_query(p["L"])))
     add("P2.extend_query(MD)", lambda p: out_url(p["P2"].extend_query(p["MD"])))
